@@ -15,6 +15,7 @@ from ..sym import Sym, show, walk_expr, interval_of
 from ..facts import callee_name
 from ..common import trait_impls, short, coroutine_of, SOCKET_TYPES, rfc_compatible, strip_casts, len_base
 from .. import pathq
+from . import names
 from . import fq as fqmod
 from ..oblig import LenFacts, norm_base
 from . import tables, hs
@@ -471,7 +472,7 @@ def check_report(f, rep):
                 x = e[1]
                 while x[0] == "ref":
                     x = x[1]
-                is_param = x[0] == "field" and x[1] == ("arg", 1) and "FramedIo" in str(x[3])
+                is_param = x[0] == "field" and x[1] == ("arg", 1) and names.of(f, "FramedIo") in str(x[3])
                 from_driver = not pathq.is_poll(type("E", (), {"kind": "call", "name": x[1] if x[0] in ("call", "pure") else ""})()) and \
                     pathq.mentions_call(x, lambda y: hs.is_poll_of_role(f, y, "driver")) is not None and \
                     not (x[0] in ("call", "pure") and hs.is_poll_of_role(f, x, "driver"))
